@@ -79,3 +79,18 @@ impl LuaIndex for LuaFlowIndex {
         self.signature_cast_cache.clear();
     }
 }
+
+/// Entry counts of every map of this index (verification hook, add-only, off by default).
+#[cfg(feature = "verif")]
+impl LuaFlowIndex {
+    pub fn verif_sizes(&self) -> Vec<(String, usize)> {
+        let p = "flow";
+        let mut v: Vec<(String, usize)> = Vec::new();
+        let mut put = |name: &str, n: usize| v.push((format!("{p}.{name}"), n));
+        put("file_flow_tree", self.file_flow_tree.len());
+        put("signature_cast_cache", self.signature_cast_cache.len());
+        put("signature_cast_cache.items", self.signature_cast_cache.values().map(|s| s.len()).sum());
+
+        v
+    }
+}
